@@ -95,6 +95,11 @@ func checkC10(w *Worker) {
 			x.Violate("C10|parser|panic", fmt.Sprintf("file %q, reader failing at byte %d: panic %s", data, k, pan), nil)
 			return
 		}
+		if ret == nil && got == full && k <= len(data) {
+			x.Violate("C10|parser|success-although-the-read-failed", fmt.Sprintf("file %q, reader failing at byte %d of %d (chunk %d, error with last bytes: %v): the parser returned nil (the records happen to be complete, but the read error was swallowed)", data, k, len(data), chunk, together),
+				map[string]interface{}{"file": data, "fail_at": k, "chunk": chunk, "together": together})
+			return
+		}
 		if ret == nil && got != full {
 			x.Violate("C10|parser|success-on-a-prefix", fmt.Sprintf("file %q, reader failing at byte %d (chunk %d, error with last bytes: %v): the parser returned nil after delivering only %s; the complete file gives %s", data, k, chunk, together, got, full),
 				map[string]interface{}{"file": data, "fail_at": k, "chunk": chunk, "together": together})
